@@ -211,3 +211,151 @@ def _decls(fn):
     d = []
     walk(fn["body"], lambda n: [d.append(v) for v in n.get("vars", []) if "n" in v] if n.get("k") == "Decl" else None)
     return d
+
+
+def ast_digest(fn):
+    """structure digest of a function body: node kinds, operators, literals and resolved library/std callee names - no local
+    names, no locations, no types.  Used only for the published reference hash functions, whose algorithm must not change."""
+    import hashlib
+    toks = []
+
+    def v(n):
+        if isinstance(n, dict):
+            k = n.get("k")
+            if k:
+                t = k
+                for a in ("op", "lit", "post"):
+                    if a in n and n[a] not in (None, False):
+                        t += ":%s" % n[a]
+                if k in ("Call",) and n.get("cname"):
+                    t += ":" + n["cname"]
+                if k in ("Ref", "Member") and "v" in n and (n.get("dk") in ("global", "enum") or n.get("isstatic")):
+                    t += "=%s" % n["v"]
+                if k == "Cast" and not n.get("impl"):
+                    t += ":" + str(n.get("t"))
+                toks.append(t)
+            for key in sorted(n):
+                if key in ("loc", "t", "sz", "n", "d", "q", "ts", "fid", "cpat", "callee", "crec", "targs", "ptypes", "from", "written"):
+                    continue
+                v(n[key])
+        elif isinstance(n, list):
+            for x in n:
+                v(x)
+    v(fn["body"])
+    return hashlib.sha256(" ".join(toks).encode()).hexdigest()[:20], len(toks)
+
+
+HASH_DIGEST_FUNCS = ["MurmurHash3_x64_128", "fmix64", "XXHash64::hash", "XXHash64::add", "XXHash64::process", "XXHash64::processSingle", "XXHash64::rotateLeft", "compute_seed_hash", "compute_hash", "canonical_double"]
+
+
+def hash_digest_rule(facts):
+    sp = spec().get("hash_digests", {})
+    fns = functions_by(facts)
+    out = []
+    for name, want in sorted(sp.items()):
+        cands = [f for f in fns.values() if f["qname"].split("<")[0].endswith(name)]
+        key = "hash-structure:" + name
+        if not cands:
+            out.append(ob("layout.hash", key, "", "unrecognised", "function %s not found / not instantiated" % name, ""))
+            continue
+        fn = cands[0]
+        got, n = ast_digest(fn)
+        if got == want:
+            out.append(ob("layout.hash", key, fn["pat"], "discharged", "operator/literal structure (%d nodes) equals the reviewed reference implementation" % n, fn["qname"]))
+        else:
+            out.append(ob("layout.hash", key, fn["pat"], "violated", "the operator / literal / control structure of %s differs from the reviewed reference implementation of the published algorithm (digest %s, expected %s): an altered comparison, shift or loop bound changes hash values for some input lengths and breaks cross-language compatibility" % (name, got, want), fn["qname"]))
+    return out
+
+
+def flag_provenance(facts):
+    """a boolean decoded from the image's flags byte depends on exactly the documented flag bit(s); extra terms are listed
+    (reviewed) in spec/layouts.json -> flag_terms"""
+    sp = spec().get("flag_terms", {})
+    fns = functions_by(facts)
+    out = []
+    seen_keys = set()
+    for pat, fn in sorted(fns.items()):
+        if not (fn["name"].startswith("deserialize") or fn["name"].startswith("check_") or fn["name"] in ("parse", "newHll", "newList", "newSet", "internal_deserialize_or_wrap")):
+            continue
+        rect = short(fn.get("rect") or "")
+
+        def v(n):
+            if n.get("k") != "Decl":
+                return
+            for var in n.get("vars", []):
+                if var.get("t") not in ("const bool", "bool") or var.get("init") is None:
+                    continue
+                t = txt(var["init"]).replace(" ", "")
+                if "flags" not in t.lower() or "&" not in t:
+                    continue
+                key = "%s::%s:%s" % (rect, fn["name"], var["n"])
+                k2 = key
+                i = 1
+                while k2 in seen_keys:
+                    i += 1
+                    k2 = "%s#%d" % (key, i)
+                seen_keys.add(k2)
+                # terms: split on | and || and &&
+                terms = sorted(set(x for x in _split_terms(strip(var["init"]))))
+                want = sp.get(k2)
+                if want is None:
+                    out.append(ob("layout.flags", k2, var["loc"], "unrecognised", "flag decoding `%s = %s` is not in the reviewed table (new reader code: review and add to spec/layouts.json)" % (var["n"], t), fn["qname"]))
+                elif terms == want:
+                    out.append(ob("layout.flags", k2, var["loc"], "discharged", "%s = %s" % (var["n"], " | ".join(terms)), fn["qname"]))
+                else:
+                    out.append(ob("layout.flags", k2, var["loc"], "violated", "`%s` is decoded as `%s`; the documented layout derives it from %s only: images written by other implementations / earlier releases are interpreted differently" % (var["n"], " | ".join(terms), " | ".join(want)), fn["qname"]))
+        walk(fn["body"], v)
+    return out
+
+
+def _split_terms(e):
+    e = strip(e)
+    if isinstance(e, dict) and e.get("k") == "Bin" and e.get("op") in ("|", "||", "&&"):
+        return _split_terms(e["l"]) + _split_terms(e["r"])
+    if isinstance(e, dict) and e.get("k") == "Construct" and len(e.get("args", [])) == 1:
+        return _split_terms(e["args"][0])
+    t = txt(e).replace(" ", "")
+    # normalise `(x & m) > 0`, `(x & m) != 0`, `x & m` to the masked test
+    for suf in (">0)", "!=0)"):
+        if t.endswith(suf) and t.startswith("("):
+            t = t[1:-len(suf)]
+    return [t]
+
+
+def flag_terms_table(facts):
+    """used by tools/gen_spec_c10.py to build the reviewed table"""
+    fns = functions_by(facts)
+    res = {}
+    for o in flag_provenance_raw(facts):
+        res[o[0]] = o[1]
+    return res
+
+
+def flag_provenance_raw(facts):
+    fns = functions_by(facts)
+    seen_keys = set()
+    out = []
+    for pat, fn in sorted(fns.items()):
+        if not (fn["name"].startswith("deserialize") or fn["name"].startswith("check_") or fn["name"] in ("parse", "newHll", "newList", "newSet", "internal_deserialize_or_wrap")):
+            continue
+        rect = short(fn.get("rect") or "")
+
+        def v(n):
+            if n.get("k") != "Decl":
+                return
+            for var in n.get("vars", []):
+                if var.get("t") not in ("const bool", "bool") or var.get("init") is None:
+                    continue
+                t = txt(var["init"]).replace(" ", "")
+                if "flags" not in t.lower() or "&" not in t:
+                    continue
+                key = "%s::%s:%s" % (rect, fn["name"], var["n"])
+                k2 = key
+                i = 1
+                while k2 in seen_keys:
+                    i += 1
+                    k2 = "%s#%d" % (key, i)
+                seen_keys.add(k2)
+                out.append((k2, sorted(set(_split_terms(strip(var["init"]))))))
+        walk(fn["body"], v)
+    return out
